@@ -79,6 +79,10 @@ def gen(rng, tier):
             r["edges"] = list(r["edges"]) + [(k, k), (rng.choice(list(r["nodes"])), k)]
             seq.insert(rng.randrange(len(seq) + 1), "check")
         cases.append({"kind": "observe", "recipe": V.enc_recipe(r), "how": how, "seq": seq, "stale": stale})
+    # graphs with tensors of several MiB, read back twice from a PATH (not a buffer): the results must not be windows onto the file
+    for _ in range(2 if tier == "quick" else 12):
+        cases.append({"kind": "bigread", "n": rng.choice([600, 515, 731]), "dt": rng.choice(["float64", "float32", "int64"]),
+                      "target": rng.choice(["str", "path"]), "seed": rng.randrange(2 ** 30)})
     # graphs whose shape annotations are still (partly) undefined — un-inferred convolutions, Flatten and Output nodes behind
     # a typed Input: the file form cannot carry them (write raises), the type check rejects them; neither may "help" by
     # filling the annotations in
@@ -151,8 +155,49 @@ def first_diff(a, b, path="g"):
     return None if a == b else f"{path} changed"
 
 
+def run_bigread(c):
+    import os
+    import pathlib
+    import shutil
+    import tempfile
+    import nir
+    n = c["n"]
+    w = (np.random.RandomState(c["seed"] % (2 ** 31)).randint(0, 1000, size=(n, n))).astype(c["dt"])
+    g = nir.NIRGraph(nodes={"input": nir.Input(np.array([n])), "lin": nir.Linear(weight=w), "output": nir.Output(np.array([n]))},
+                     edges=[("input", "lin"), ("lin", "output")])
+    d = tempfile.mkdtemp(prefix="nirverif_c17_")
+    fail = None
+    try:
+        p = os.path.join(d, "big.nir")
+        tgt = p if c["target"] == "str" else pathlib.Path(p)
+        with quiet():
+            nir.write(tgt, g)
+            h0 = hashlib.sha256(open(p, "rb").read()).hexdigest()
+            ga, gb = nir.read(tgt), nir.read(tgt)
+        sb = snapshot(gb)
+        try:
+            ga.nodes["lin"].weight[...] = 7
+        except Exception as e:  # noqa: BLE001
+            fail = f"the weight returned by nir.read cannot be written in place: {type(e).__name__}"
+        if not fail and first_diff(sb, snapshot(gb)):
+            fail = f"mutating the {n}x{n} {c['dt']} weight of the graph returned by one nir.read({c['target']}) changed the graph returned by another"
+        del ga, gb
+        if not fail and hashlib.sha256(open(p, "rb").read()).hexdigest() != h0:
+            fail = f"mutating the {n}x{n} {c['dt']} weight of a graph returned by nir.read({c['target']}) changed the file"
+        if not fail:
+            with quiet():
+                gc = nir.read(tgt)
+            if not np.array_equal(gc.nodes["lin"].weight, w):
+                fail = "a later nir.read of the same path returns other values after an earlier result was mutated"
+    finally:
+        shutil.rmtree(d, ignore_errors=True)
+    return Outcome(None, fail, True, repr(c))
+
+
 def run(c):
     import nir
+    if c["kind"] == "bigread":
+        return run_bigread(c)
     r = fix_recipe(V.dec_recipe(c["recipe"]))
     sig = repr((c["recipe"], c["seq"], c["stale"]))
     b = try_build(r)
